@@ -41,6 +41,8 @@ UNIVERSES = {
     "dots": {"s": ["v1.0", "v1", "a.b", "v 2"], "a": [1]},
     "nested": {"n": [{"x": 1}, {"x": 2}, {"x": 1, "y": 2}], "a": [1, 2]},
     "schema_words": {"w": ["alpha", "beta_2", "A1"], "a": [1, 10], "flag": [True, False]},
+    "pathy": {"s": ["x", "./x", ".", "x/y", "x//y", "x/", "y/../x"], "a": [1, 2]},
+    "escaping": {"s": ["ok", "../up", "../../up2", ".."], "a": [1]},
 }
 
 
